@@ -28,7 +28,7 @@ def make_case(r, fmt):
     for _ in range(r.randint(4, 14)):
         n = r.choice(names)       # duplicate names happen (mates, supplementary alignments)
         L = r.choice([0, 0, 5, 8, 8, 13, 21]) if fmt == "bam" else r.choice([5, 8, 8, 13, 21])
-        reads.append(dict(name=n, seq="".join(r.choice(BASES) for _ in range(L))))
+        reads.append(dict(name=n, seq="".join(r.choice(BASES) for _ in range(L)), comment=r.choice(["", "", " runid=ab12 ch=%d" % r.randint(1, 9), " 1:N:0:ACGT"])))
     four = r.random() < 0.6
     header = r.random() < 0.6
     listed = {}
@@ -105,7 +105,7 @@ class SplitFiles(BCheck):
     contract = ("run_split: every requested output file contains exactly the input records whose list entry selects it (unlisted/'none' reads -> untagged output, additionally all "
                 "haplotype outputs with --add-untagged, nowhere if --discard-unknown-reads and unlisted), unmodified, in input order; read-length histogram column sums == "
                 "number of records written to the corresponding requested output")
-    rule = ("seeded cases: FASTQ and BAM inputs with 4-14 records over 3-9 names (duplicate names; BAM records without sequence), lists with 2 or 4 columns, with/without header, "
+    rule = ("seeded cases: FASTQ (headers with and without comments) and BAM inputs with 4-14 records over 3-9 names (duplicate names; BAM records without sequence), lists with 2 or 4 columns, with/without header, "
             "'none' entries, names absent from the reads, unlisted reads, ploidy 2-4, random subsets of requested outputs x add-untagged x discard-unknown x only-largest-block; "
             "non-trivial = some name occurs twice or an option besides plain splitting is set")
     budget_s = {"quick": 120, "thorough": 1200}
@@ -129,7 +129,7 @@ class SplitFiles(BCheck):
                 recs = []
                 with open(src, "w") as f:
                     for rd in case["reads"]:
-                        t = "@%s\n%s\n+\n%s\n" % (rd["name"], rd["seq"], "I" * len(rd["seq"]))
+                        t = "@%s%s\n%s\n+\n%s\n" % (rd["name"], rd.get("comment", ""), rd["seq"], "I" * len(rd["seq"]))
                         recs.append(t)
                         f.write(t)
                 ext = "fastq"
